@@ -57,6 +57,10 @@ def cel_panics(res):
              ("int", "100 / value > 1"), ("int64", "value / 2 > 1"), ("uint8", "200 / value > 1"), ("float64", "value / this.F > 1.0"), ("float64", "1.0 / value > 0.0"),
              ("string", "value.matches('^[a-z]+$')"), ("string", "value.matches('(a|b)*c')"), ("string", "value in ['a', 'b'] || size(value) > 3"),
              ("[]int", "value.all(x, 10 / x > 0)"), ("[]int", "value.exists(x, x % 2 == 0)"), ("[]string", "value.all(s, s.matches('^a'))"),
+             ("string", "value.startsWith('/')"), ("string", "value.endsWith('/')"), ("string", "value.startsWith('ab') || value.endsWith('é')"),
+             ("string", "value.contains('a') && startsWith(value, 'a')"), ("[]string", "value.all(s, s.startsWith('#'))"),
+             ("[]string", "value.exists(s, s.endsWith('x'))"), ("string", "size(value) > 0 && value.startsWith(value)"), ("string", "value.matches('')"),
+             ("string", "value + value == 'aa' || value < 'b'"), ("string", "int(value) > 1 || value == ''"), ("map[string]int", "'k' in value && size(value) < 3"),
              ("int", "-value < 3 && !(value % 2 == 0)"), ("int8", "value * value >= 0"), ("int", "value - (this.A - 3) != 0 && 7 / (value - (this.A - 3)) >= 0")]
     rng = random.Random(res.seed)
     scen = [celgen.scenario_for("c17cel%d" % i, vt, e, rng, 60) for i, (vt, e) in enumerate(exprs)]
